@@ -174,10 +174,25 @@ def cases(rng, tier):
                 c["rmax"] = {"kind": "scalar", "tt": k, "tucker": k}
             else:
                 c["rmax"] = {"kind": "list", "tt": [rng.randint(1, 6) for _ in range(N - 1)], "tucker": [rng.randint(1, 6) for _ in range(N)]}
-        if False and N >= 2 and rng.random() < 0.12:  # `dim=` subsets of round_tucker are not named by the property (a known oddity: all modes are truncated with the budget of len(dim)); not generated
+        if N >= 2 and rng.random() < 0.12:  # `dim=` subsets of round_tucker: the error bound must hold for them too (repaired in /repo: fix: round_tucker …)
             k = rng.randint(1, N - 1)
             c["dim"] = sorted(rng.sample(range(N), k))
+            if rng.random() < 0.3:
+                c["dim"] = [d - N if rng.random() < 0.5 else d for d in c["dim"]]
         out.append(c)
+    # round_tucker(dim=<proper subset>) at LARGE tolerances on tensors whose mode unfoldings all have something to discard: the regime in
+    # which truncating modes that were not requested (each with the budget of len(dim)) exceeds eps
+    for _ in range({"quick": 60, "thorough": 500, "search": 200}[tier]):
+        N = rng.choice([3, 3, 4])
+        # a full-rank tensor (exact TT of a dense array with slowly decaying unfolding spectra): every mode has something to discard
+        shp = [rng.randint(3, 4) for _ in range(N)]
+        xd = rnd_entries(rng, shp, "float") + 0.5 * rnd_entries(rng, shp, "int")
+        t = core.from_tn(tn.Tensor(torch.tensor(xd)))
+        k = rng.randint(1, N - 1)
+        dim = sorted(rng.sample(range(N), k))
+        out.append({"kind": "hybrid", "variant": "generic", "t": t.to_json(), "eps": rng.choice([0.2, 0.3, 0.5]), "alg": "svd",
+                    "copying": [rng.random() < 0.4 for _ in OPS], "rmax": None,
+                    "dim": [d - N if rng.random() < 0.3 else d for d in dim] if rng.random() < 0.8 else dim[0]})
     for _ in range(nd):
         N = rng.choice([1, 2, 2, 3, 3, 4])
         hi = 6 if N <= 2 else (5 if N == 3 else 4)
@@ -305,7 +320,8 @@ def check_result(ctx, case, op, f, t, x, S, r, eps, alg, rm, dim=None, before_tt
                 report(ctx, case, op, f, "TT rank > rmax", "ranks_tt %s with rmax %s" % (rtt, rm["tt"]), dim)
         if op in ("round_tucker", "round"):
             caps = rm["tucker"] if isinstance(rm["tucker"], list) else [rm["tucker"]] * N
-            if any(rtk[k] > caps[k] for k in range(N)):
+            sel = range(N) if dim is None else sorted({d % N for d in (dim if isinstance(dim, list) else [dim])})   # with dim= only the requested factors are truncated
+            if any(rtk[k] > caps[k] for k in sel):
                 report(ctx, case, op, f, "Tucker rank > rmax", "ranks_tucker %s with rmax %s" % (rtk, rm["tucker"]), dim)
     # -- error bound
     nx = frob(x)
@@ -346,7 +362,7 @@ def run_case(ctx, case):
         f = features(t, x)
         rm = case["rmax"]
         rk = "none" if rm is None else rm["kind"]
-        ctx.case(("round*", t.sig(), case["variant"], alg, rk, int(math.floor(math.log10(eps))), tuple(case["dim"] or [])), t.nontrivial(),
+        ctx.case(("round*", t.sig(), case["variant"], alg, rk, int(math.floor(math.log10(eps))), repr(case["dim"])), t.nontrivial(),
                  {"ops": OPS, "t": t.describe(), "variant": case["variant"], "eps": eps, "algorithm": alg, "rmax": rm, "dim": case["dim"]})
         ctx.count("variant:" + case["variant"]); ctx.count("alg:" + alg); ctx.count("rmax:" + rk); ctx.count("tiny_eps" if tiny else "eps")
         fmt_counts(ctx, t)
